@@ -74,6 +74,16 @@ def downscale_post(self, chunk, downscaling_factors, result):
         return False
     if chunk.size == 0:
         return True
+    if chunk.dtype.kind == "f" and np.isnan(chunk).any():
+        # not-a-number voxels propagate into their blocks; the range condition applies to
+        # the numbers that remain
+        if np.isnan(chunk).all() or np.isnan(result).all():
+            return True
+        lo, hi = np.nanmin(chunk), np.nanmax(chunk)
+        pad = getattr(self, "pad_kwargs", {}).get("constant_values")
+        if pad is not None:
+            lo, hi = min(lo, pad), max(hi, pad)
+        return bool(np.nanmin(result) >= np.floor(lo) and np.nanmax(result) <= np.ceil(hi))
     lo, hi = chunk.min(), chunk.max()
     pad = getattr(self, "pad_kwargs", {}).get("constant_values")
     if pad is not None:
